@@ -96,7 +96,7 @@ def evalErrStr : EvalErr → String
   | .panic m => s!"PANIC {m}"
   | .fuel => "FAULT fuel"
 
-def evalFuel : Nat := 3000
+def evalFuel : Nat := 20000
 
 /-- eval: `<expr hex>\t<doc>` → `ok <value>` | `C E parse …` | `E …` -/
 def streamEval (fields : List String) : String :=
